@@ -18,23 +18,33 @@ def flush_loop(sfx, v, who, after, style):
     do_close=True (a disconnect errno tears the channel down from inside send; an exception first releases the
     lock, then _flush_exception sets will_close); "worker" = called through _flush_exception(do_close=False)
     with the lock held (will_close is set at once); "sc" = called directly by send_continue (do_close=True)."""
+    # nosock: the flush finds bytes in a buffer of a channel that dispatcher.close() has already left without a
+    # socket (handle_close leaves the bytes of a string-mode buffer where they are): self.socket.send raises
+    # AttributeError before any socket call is made
     if style == "io":
         hard = """{exc} := TRUE; goto {after};"""
         disc = """{sent} := 0; closeRet := "{sfx}"; goto handle_close_acq_outbuf_lock;"""
+        nosock = """{exc} := TRUE; goto {after};"""
     elif style == "scio":
         hard = """crashed := crashed \\cup {{{who}}}; goto {after};"""      # not modelled: the exception leaves received()
         disc = """{sent} := 0; closeRet := "{sfx}"; goto handle_close_acq_outbuf_lock;"""
+        nosock = """crashed := crashed \\cup {{{who}}}; goto {after};"""    # (the I/O thread does not read from a channel it has closed)
     elif style == "scw":
-        hard = """crashed := crashed \\cup {{{who}}}; goto {after};"""      # not modelled: the exception leaves service()
-        disc = """crashed := crashed \\cup {{{who}}}; goto {after};"""      # handle_close on a worker thread: never in the model
+        # the exception leaves service() through both with-blocks; ThreadedTaskDispatcher.handler_thread logs it and
+        # takes the next task
+        hard = """goto send_continue_rel_outbuf_lock_x;"""
+        disc = """{sent} := 0; goto {after};"""                              # service() passes do_close=False
+        nosock = """goto send_continue_rel_outbuf_lock_x;"""
     else:
         hard = """{exc} := TRUE;
 flush_exception_wr_will_close_{sfx}:
             willClose := TRUE; decided := TRUE;
             goto {after};"""
         disc = """{sent} := 0; goto {after};"""
+        nosock = """{exc} := TRUE; goto flush_exception_wr_will_close_{sfx};"""
     t = """{sfx}_fs_top:
         {outlen} := BLen(obufs[1]);
+        if ({outlen} > 0 /\\ nclose > 0) {{ """ + nosock + """ }};
 {sfx}_fs_loop:
         while ({outlen} > 0) {{
 send_send_sock_{sfx}:
@@ -366,7 +376,9 @@ handle_read_wr_connected:
       connected := FALSE;
     };
 io_write:
-    if (rdyW /\ inMap) {
+    \* wasyncore.poll looks the descriptor up again before the write event; poll2 (asyncore_use_poll) hands both
+    \* events to readwrite(), which calls handle_write_event even if the read event has just closed the channel
+    if (rdyW /\ (inMap \/ cfg.usepoll)) {
 handle_write_event_rd_connected:
       skip;
 handle_write_rd_requests:
@@ -414,7 +426,9 @@ handle_write_rd_will_close:
 handle_close_acq_outbuf_lock:
         await outOwner \in {"free", "io"}; outOwner := "io"; outCount := outCount + 1;
 handle_close_wr_total_outbufs_len:
-        total := 0; obufs := << <<>> >>; ostr := <<TRUE>>;
+        \* OverflowableBuffer.close(): a file-based buffer is closed (and is empty from then on), the bytes of a
+        \* string-mode buffer stay where they are
+        total := 0; obufs := [i \in DOMAIN obufs |-> IF ostr[i] THEN obufs[i] ELSE <<>>];
 handle_close_wr_connected:
         connected := FALSE;
 handle_close_notify_outbuf_lock:
@@ -536,7 +550,12 @@ service_rd_requests_4:
     };
 service_rd_connected_3:
     if (connected /\ cur # 0 /\ curExpect /\ ~sentContinue) {
-@SC_W@    };
+@SC_W@      goto service_rel_requests_lock;
+send_continue_rel_outbuf_lock_x:
+      outCount := outCount - 1; if (outCount = 0) { outOwner := "free"; };
+service_rel_requests_lock_x:
+      reqLock := "free"; goto w_idle;
+    };
 service_rel_requests_lock:
     reqLock := "free";
 service_rd_connected_4:
@@ -565,6 +584,10 @@ ProducerReleased == Quiescent => (waiters = <<>> /\ \A w \in Workers : pc[w] = "
 (* C05/C12: no livelock - with every thread scheduled fairly the system comes to rest (the scenarios are finite),
    in particular the I/O loop does not spin on a channel it declines to flush while a producer waits for it *)
 ComesToRest == <>Quiescent
+(* the state in which known finding K-C12-wait-after-teardown begins: a worker's back-pressure flush raised
+   because the I/O thread had already closed the channel.  Used only as CONSTRAINT NotLateFlush in a second
+   run of a scenario in which TLC has reported that finding, so that the rest of its state space is searched *)
+NotLateFlush == ~(nclose > 0 /\ \E w \in Workers : pc[w] \in {"flush_exception_wr_will_close_hws", "flush_exception_wr_will_close_hww"})
 (* C13: a connection whose client went away is torn down, once *)
 DeadConnectionClosed == Quiescent => (~(accepted /\ peerGone) \/ (~inMap /\ nclose = 1))
 =============================================================================
